@@ -317,7 +317,7 @@ func newCounterFile(name string, c *tcounter.File, cfg *config.Config) *counterF
 	var stacks []*stack
 	for k, v := range c.Count {
 		if summary, details, ok := strings.Cut(k, "\n"); ok {
-			active := cfg.HasStack(c.Meta["Program"], k)
+			active := cfg.HasStack(c.Meta["Program"], summary)
 			stacks = append(stacks, &stack{summary, details, v, active})
 		} else {
 			active := cfg.HasCounter(c.Meta["Program"], k)
@@ -376,7 +376,7 @@ func summary(cfg *config.Config, meta map[string]string, counts map[string]uint6
 	var counters []string
 	for c := range counts {
 		summary, _, ok := strings.Cut(c, "\n")
-		if ok && !cfg.HasStack(meta["Program"], c) {
+		if ok && !cfg.HasStack(meta["Program"], summary) {
 			counters = append(counters, fmt.Sprintf("<code>%s</code>", html.EscapeString(summary)))
 		}
 		if !ok && !(cfg.HasCounter(meta["Program"], c)) {
